@@ -34,6 +34,23 @@ def run(ck):
         ck.rng.shuffle(seqs)
         cases.append({'kind': 'protein' if k % 2 == 0 else 'dna', 'family': 'kmeans-outlier-clusters', 'seqs': seqs, 'type': 5, 'pens': [gen.NG] * 3, 'threads': ck.rng.choice([1, 4])})
         ck.count('family:kmeans-outlier-clusters (>= 100 sequences)')
+    # alignments of >= 1024 columns in which a finished group has a member with a long run of trailing (or leading) gaps and a later
+    # merge inserts columns INSIDE that run: every member of the group must receive the same columns
+    for k in range(2 if ck.tier == 'quick' else 12):
+        alpha = gen.PROT if k % 2 == 0 else gen.DNA
+        tail = 'WKW' if k % 2 == 0 else ''
+        L = ck.rng.choice([1040, 1100, 1200])
+        full = gen.rand_seq(ck.rng, alpha, L)
+        cut = ck.rng.range(L // 2, 700)
+        short = full[:cut] if k % 4 < 2 else full[L - cut:]
+        # the insertion lies inside the gap run AND inside the first 1024 residues (the distance kernel looks at no more, and the
+        # guide tree has to join 'full' and 'short' first)
+        pos = ck.rng.range(cut + 60, 980) if k % 4 < 2 else ck.rng.range(40, L - cut - 60)
+        ins = full[:pos] + gen.rand_seq(ck.rng, alpha, ck.rng.range(15, 40)) + full[pos:]
+        seqs = [full + tail, short + tail, ins + tail, gen.mutate(ck.rng, ins, alpha, 3, 1) + tail][:ck.rng.choice([3, 4])]
+        ck.rng.shuffle(seqs)
+        cases.append({'kind': 'protein' if k % 2 == 0 else 'dna', 'family': 'long-trailing-gaps', 'seqs': seqs, 'type': 5, 'pens': [gen.NG] * 3, 'threads': ck.rng.choice([1, 4])})
+        ck.count('family:>= 1024 columns, insertion inside the terminal gap run of a finished group')
     # corpus: an input on which the bisecting k-means isolates a cluster of exactly two sequences below the top split
     # (kept from the seeded round, seeded/C10-E)
     import os
